@@ -612,13 +612,29 @@ SPEC = {
     "model_targets": ["model/EsBuild.vo", "model/EsSpec.vo", "model/EsSem.vo"],
     "module": "C05",
     "theorems": ["C05_reject", "C05_boolean_partial", "C05_refuted", "C05_refuted_F8", "C05_refuted_F17", "C05_refuted_F18"],
+    # the nested part (proofs/EsNestedProofs.v): equivalence for nested fields of any depth + structure of the query
+    "more": [{"module": "C05n", "target": "props/C05n.vo",
+              "theorems": ["C05_nested_partial", "C05_nested_subsumes_boolean", "C05_nested_structure",
+                           "C05_nested_ok_names",
+                           "C05_nested_F8_guard_needed", "C05_nested_F17_guard_needed", "C05_nested_F6_guard_needed",
+                           "C05_nested_F18_guard_needed", "C05_nested_F19_guard_needed",
+                           "C05_structure_F8_guard_needed", "C05_structure_F17_guard_needed",
+                           "C05_structure_F18_guard_needed"]}],
     "correspond": correspond,
     "statement": "on supported trees and well-formed configurations the builder raises a documented inconsistency "
                  "exception or returns a JSON that matches (reference semantics of bool / nested / leaf clauses, "
                  "EsSem.es_eval) exactly the documents the tree denotes (EsSem.den).  Full statement refuted "
                  "(F6, F8, F17, F18); the reject clause is proved in full; the equivalence is proved for configurations "
-                 "without nested fields and trees without the F6 shape (C05_boolean_partial); nested meaning is "
-                 "checked on the implementation by the oracle only",
+                 "without nested fields and trees without the F6 shape (C05_boolean_partial) and, in C05n.v, for EVERY "
+                 "configuration (nested fields of any depth, object and sub fields, any default field / operator) and "
+                 "every document (arrays of nested objects at every level) under executable guards that exclude "
+                 "exactly F8 (nested_have_leaf), F17 (default_ok) and F6 / F18 / a ~ modifier above a field that "
+                 "crosses a nested boundary (nested_ok; the last shape, F19, is not producible by the grammar): "
+                 "C05_nested_partial, with one refutation per guard showing it necessary; C05_nested_structure: in "
+                 "the JSON of every translated tree (under not-F8, not-F17, not-F18) every nested clause has a declared "
+                 "path that properly extends the enclosing one and every leaf sits directly under the innermost nested "
+                 "path of its field (EsNested.nest_wf), so no nested clause is nested twice.  The oracle below still "
+                 "judges every generated case on the implementation",
     "trusted_base": [
         "Coq 8.16.1 kernel (vm_compute for witnesses and correspondence; no native_compute)",
         "no axioms (Print Assumptions: closed under the global context)",
@@ -647,5 +663,12 @@ SPEC = {
         "negative BoolOperation matches the complement, as the property text says, not nothing as in Lucene)",
         "default_operator values other than SHOULD act as MUST (as in the code)",
         "trees with a field named '' or '.x' are judged only for finding F18",
+        "C05n.v guards (model/EsNested.v), each an executable predicate on the input: nested_have_leaf = every "
+        "ancestor of a declared nested path is the parent of a declared path (not F8); default_ok = no term outside "
+        "every field unless the default field is under no nested path (not F17); nested_ok = BoolOperation operands "
+        "are +x / -x / NOT x or translate to neither EMust nor EMustNot (a field crossing a nested boundary counts "
+        "as 'other', as in the code; not F6), field names have a non-empty first component unless '' is not a "
+        "nested prefix for the code (not F18), and no Fuzzy / Proximity sits above a field that crosses a nested "
+        "boundary (F19: Fuzzy(SearchField('a.b', Word('x')), 2) loses its fuzziness when a is nested)",
     ],
 }
